@@ -517,6 +517,18 @@ func (e *Engine) tryMerge(a, b Outcome, nPC int) (Outcome, bool) {
 			ns.taintKeysAdd(o, k)
 		}
 	}
+	for k := range a.st.closedCh {
+		if ns.closedCh == nil {
+			ns.closedCh = map[string]bool{}
+		}
+		ns.closedCh[k] = true
+	}
+	for k := range b.st.closedCh {
+		if ns.closedCh == nil {
+			ns.closedCh = map[string]bool{}
+		}
+		ns.closedCh[k] = true
+	}
 	for k, bts := range a.st.taintRef {
 		if ns.taintRef == nil {
 			ns.taintRef = map[string]uint8{}
@@ -1089,6 +1101,18 @@ func (e *Engine) builtin(fr *Frame, st *State, b *ssa.Builtin, args []Value, ins
 		return []Value{r}
 	case "close":
 		e.event(st, "close")
+		if len(args) == 1 {
+			if ch, ok := args[0].(OpaqueV); ok && ch.Ref != nil {
+				k := ch.Ref.String()
+				// closing a channel twice panics; channels this function did not close itself are
+				// assumed open (their state is the caller's)
+				e.oblige(st, fr, "safe.close", ins, Bool(!st.closedCh[k]), "close of a channel already closed on this path")
+				if st.closedCh == nil {
+					st.closedCh = map[string]bool{}
+				}
+				st.closedCh[k] = true
+			}
+		}
 		return nil
 	}
 	e.toolError("builtin %s not modelled", b.Name())
